@@ -67,6 +67,8 @@ def run(rep, tier, seed):
             key = "%s-%s-%s" % (e["family"], "+".join(why)[:60], hashlib.md5(e["prog"].encode()).hexdigest()[:6])
             if e["family"] == "grow-string" and set(why) <= RESOURCE:
                 key = "unbounded-string-growth"
+            if e["family"] == "uncharged-walk" and set(why) <= RESOURCE:
+                key = "uncharged-walk-over-containers"
             rep.violation({"key": key, "kind": "c07",
                            "what": "%s: `%s` (%d bytes) under OpCountLimit %d, ParseExprLimit %d, mode %d: ops %d, dispatched %d, rolled %d, %s%s" % (
                                "/".join(why), e["prog"][:160], e["progLen"], e["limit"], e["parseLimit"], e["mode"], e["ops"], e["dispatches"], e["rolls"],
